@@ -67,7 +67,8 @@ type c18Spec struct {
 	NoStatusCode bool    `json:"no_status_code,omitempty"` // Status element without StatusCode
 	SignKey      int     `json:"sign_key"`                 // index into rsaKeys; -1: unsigned
 	SigMethod    string  `json:"sig_method,omitempty"`
-	SigPlace     string  `json:"sig_place,omitempty"` // "" = after Issuer (schema) | last | first
+	SigPlace     string  `json:"sig_place,omitempty"`      // "" = after Issuer (schema) | last | first
+	Pretty       bool    `json:"pretty_printed,omitempty"` // line breaks and indentation between child elements, applied before signing
 }
 
 // c18Op is one edit by Mallory on the signed document in flight.
@@ -259,6 +260,7 @@ func c18ValidSpec(g *Rng, k c18Knobs, i int, delay int64) c18Spec {
 	if g.Bool(0.05) {
 		s.IssuerSplit = 1 + g.Intn(len(k.IDPEntity)-1) // a comment inside the text does not change the text
 	}
+	s.Pretty = g.Bool(0.2)
 	return s
 }
 
@@ -858,6 +860,9 @@ func c18Build(k c18Knobs, st *c18Step, m *c18Model, t0 time.Time) []byte {
 		el.CreateAttr("xmlns:samlp", c18ProtoNS+":x")
 	case "no-ns":
 		el.Space = ""
+	}
+	if s.Pretty && s.IssuerSplit == 0 {
+		el.IndentWithSettings(&etree.IndentSettings{Spaces: 2})
 	}
 	if s.SignKey >= 0 {
 		el = signEnveloped(rsaKeys[s.SignKey], s.SigMethod, el)
